@@ -188,6 +188,20 @@ def run(ctx):
                 ctx.nontriv((appname, st["segs"]))
             if n in (50, 3000):
                 ctx.sample({"app": appname, "path": paths[-1][0], "outcome": dict(st["outcome"]), "followed_redirect": st["hops"] == 1})
+        # WSGI: a path that is not UTF-8 names no text file name: the byte E9 alone is not "é"
+        for (appname, iface), app in apps.items():
+            if iface != "wsgi":
+                continue
+            for raw in ("/\xe9.txt", "/sub/\xe9.txt", "/\xe9.txt/", "/\xff", "/\xc3\xa9.txt\xff"):
+                env = servers.make_environ(servers.Req(path="/", headers=[("Host", "testserver")]))
+                env["PATH_INFO"] = raw
+                r = servers.wsgi_call(app, env)
+                ctx.count()
+                from baize.exceptions import HTTPException
+                status = r.exc.status_code if isinstance(r.exc, HTTPException) else (r.status if r.exc is None else "exc:" + type(r.exc).__name__)
+                if status != 404:
+                    ctx.violation({"app": appname, "iface": iface, "raw_path_info": raw}, 404, {"status": status, "body": r.body[:40].decode("latin-1")},
+                                  "a path that is not UTF-8 was resolved to a file (read as Latin-1 text)")
         # the empty PATH_INFO (distinct from "/"): Files not found, Pages redirect to "/"
         for (appname, iface), app in apps.items():
             o = request(app, iface, "")
